@@ -11,7 +11,8 @@ Record rt_in := {
   ri_body : bytes;               (* the body as bytes (text already encoded) *)
   ri_text : option bytes;        (* Some t: the body was given as text t (UTF-8 of it) *)
   ri_props : list (N * pv);      (* (index of the basic property, value normalised to bytes) *)
-  ri_fmax : N                    (* negotiated frame size *)
+  ri_fmax : N;                   (* negotiated frame size *)
+  ri_rawmode : bool              (* the consumer asked for auto_decode=False *)
 }.
 Record rt_obs := {
   ro_ok : bool;                  (* published, forwarded and consumed without an exception *)
@@ -28,10 +29,13 @@ Definition prop_eqb (a b : N * pv) : bool := (fst a =? fst b) && pv_eqb (snd a) 
 Definition rt_expected (i : rt_in) (o : rt_obs) : bool :=
   ro_ok o && bytes_eqb (ro_raw o) (ri_body i) &&
   (* text comes back as text, bytes that are not text come back as they are *)
-  match ri_text i with
-  | Some t => pv_eqb (ro_decoded o) (PStr t) || (match t with [] => true | _ => false end)
-  | None => true
-  end &&
+  (if ri_rawmode i
+   then (* auto_decode=False exposes the raw values: the body is the bytes received *)
+        pv_eqb (ro_decoded o) (PBytes (ri_body i))
+   else match ri_text i with
+        | Some t => pv_eqb (ro_decoded o) (PStr t) || (match t with [] => true | _ => false end)
+        | None => true
+        end) &&
   list_eqb prop_eqb (ro_props o) (ri_props i) &&
   (* the body travelled in non-empty frames within the negotiated size, adding up to it *)
   forallb (fun n => (0 <? n) && (n + 8 <=? ri_fmax i)) (ro_frames o) &&
